@@ -68,7 +68,10 @@ def work(desc: dict) -> Optional[dict]:
     want_samples = desc.get('samples', True)
     want_windows = desc.get('windows', True)
     try:
-        obs = ptgen.observe(case, rng, grid=desc.get('grid'), want_samples=want_samples, want_windows=want_windows)
+        grid = desc.get('grid')
+        if grid is None and case.get('grid'):
+            grid = [F(x) for x in case['grid']]       # a family that chooses its own sample times
+        obs = ptgen.observe(case, rng, grid=grid, want_samples=want_samples, want_windows=want_windows)
     except core.MachineryError:
         raise
     pt = obs['pt']
@@ -84,6 +87,7 @@ def work(desc: dict) -> Optional[dict]:
     cm_full.update(ptgen.cm_dict(case))
     meta = {'kinds': ptgen.spec_kinds(case['spec']), 'depth': ptgen.spec_depth(case['spec']),
             'keep': ptgen.all_atoms_keep_channel(pt, cm_full),
+            'keep_enforced': bool(case.get('enforced')) and keep_or_enforced(pt, cm_full),
             'pf11': sorted(ptgen.chan_atom(c) for c in pf11_channels(pt, cm_full)),
             'falsy_arith': sorted(ptgen.chan_atom(c) for c in falsy_arith_channels(pt, cm_full)),
             'drops': any(v is None for v in cm_full.values()) or _has_drop(case['spec'])}
@@ -91,6 +95,33 @@ def work(desc: dict) -> Optional[dict]:
             'family': desc['family'], 'label': desc.get('label', desc['family']),
             'toleranced': bool(desc.get('toleranced')) or desc.get('stream') == 'decimal' or desc.get('label') == 'huge-counts',
             'skip_spec': bool(desc.get('skip_spec'))}
+
+
+def keep_or_enforced(pt, cm) -> bool:
+    """like `ptgen.all_atoms_keep_channel`, but an AtomicMultiChannelPT with an enforced `duration=` only needs ONE
+    sub-template that keeps a channel: its duration is the enforced one whatever is dropped inside"""
+    import qupulse.pulses as qp
+    from qupulse.pulses.multi_channel_pulse_template import ParallelChannelPulseTemplate
+    from qupulse.pulses.arithmetic_pulse_template import ArithmeticPulseTemplate, ArithmeticAtomicPulseTemplate
+    from qupulse.pulses.time_reversal_pulse_template import TimeReversalPulseTemplate
+    t = type(pt)
+    if t is qp.AtomicMultiChannelPT and pt._duration is not None:
+        return any(keep_or_enforced(s, cm) for s in pt.subtemplates)
+    if t is qp.MappingPT:
+        return keep_or_enforced(pt.template, pt.get_updated_channel_mapping(cm))
+    if t is qp.SequencePT or t is qp.AtomicMultiChannelPT:
+        return all(keep_or_enforced(s, cm) for s in pt.subtemplates)
+    if t in (qp.RepetitionPT, qp.ForLoopPT):
+        return keep_or_enforced(pt.body, cm)
+    if t is ParallelChannelPulseTemplate:
+        return keep_or_enforced(pt.template, cm)
+    if t is ArithmeticPulseTemplate:
+        return keep_or_enforced(pt._pulse_template, cm)
+    if t is ArithmeticAtomicPulseTemplate:
+        return keep_or_enforced(pt.lhs, cm) and keep_or_enforced(pt.rhs, cm)
+    if t is TimeReversalPulseTemplate:
+        return keep_or_enforced(pt._inner, cm)
+    return any(cm.get(c, c) is not None for c in pt.defined_channels)
 
 
 def _has_drop(spec) -> bool:
@@ -336,7 +367,9 @@ def judge_tdur(rec: dict, reply: dict, exact=True) -> List[dict]:
     program) whenever every atomic leaf keeps a channel."""
     impl = rec['impl']
     v: List[dict] = []
-    if impl['status'] == 'error' or impl['tdur'][0] != 'ok' or not rec['meta']['keep']:
+    # (a template's duration does not know about dropped channels - except where it is an *enforced* duration:
+    #  AtomicMultiChannelPT(..., duration=...) of a case marked 'enforced')
+    if impl['status'] == 'error' or impl['tdur'][0] != 'ok' or not (rec['meta']['keep'] or rec['meta'].get('keep_enforced')):
         return v
     td_dec, td_bin = impl['tdur'][1], impl['tdur'][2]
     pd = impl['dur'] if impl['status'] == 'ok' else F(0)
@@ -574,6 +607,8 @@ class Checker:
             extra += ' parameter-types=%s' % rec['case']['ptypes']
         if rec['case'].get('reuse'):
             extra += ' mapping-dicts=caller-owned,re-used'
+        if rec['case'].get('single'):
+            extra += ' to_single_waveform=%s' % rec['case']['single']
         return 'kinds=%s params=%s cm=%s mm=%s%s' % ('/'.join(rec['meta']['kinds']), rec['case']['params'],
                                                     rec['case']['cm'], rec['case']['mm'], extra)
 
